@@ -265,8 +265,11 @@ impl GenerationPass for AvailableValuePass {
                 changed |= node.set_reg_values_out(out_reg_n);
                 changed |= node.set_memory_values_out(out_memory_n);
 
-                // Add node to visited
-                visited.insert(Rc::clone(&node));
+                // Add node to visited. A node that is visited for the first
+                // time changes what its successors have to take into account,
+                // even if its own values are the ones it already had (from an
+                // earlier run of this pass).
+                changed |= visited.insert(Rc::clone(&node));
             }
             // Loops that cannot be reached from anywhere else (dead code) never
             // get a visited predecessor: once everything else has settled, let
